@@ -132,9 +132,12 @@ def apply_impl(x, op, inplace):
         return ret(navis.despike_skeleton(x, sigma=3, **kw))
     if k == 'stitch':
         rr = random.Random(op['seed'])
-        rows, _ = G.rand_forest(rr, nmax=8, labeling=rr.choice(['seq', 'shuffled', 'zero']))
-        other = G.to_neuron(rows)
-        return navis.stitch_skeletons(x, other, method=op['method'])
+        # 1–3 partners; labelings that clash with x and with each other (several neurons need fresh ids)
+        others = []
+        for _ in range(rr.choice([1, 2, 2, 3])):
+            rows, _m = G.rand_forest(rr, nmax=8, labeling=rr.choice(['seq', 'seq', 'shuffled', 'zero']))
+            others.append(G.to_neuron(rows))
+        return navis.stitch_skeletons(x, *others, method=op['method'], master=rr.choice(['SOMA', 'LARGEST', 'FIRST']))
     if k == 'fragments':
         fr = navis.break_fragments(x)
         return fr[random.Random(op['seed']).randrange(len(fr))]
